@@ -1,11 +1,11 @@
 #!/bin/sh
-# usage: tools/seed_import.sh <src-root> <round>   (src-root/<Cnn>/out/<k>/{patch.diff,demo.py,meta.json})
+# usage: tools/seed_import.sh <src-root> <round> [Cnn]   (src-root/<Cnn>/out/<k>/{patch.diff,demo.py,meta.json})
 # Copies new seeds into /verif/seeded/<Cnn>-<n>, numbering after the existing ones, and
 # refreshes patches that need fuzz so that they apply with `git apply` on /repo's HEAD.
 SRC="$1"; ROUND="$2"
 cd "$(dirname "$0")/.."
 S=${VERIF_SCRATCH:-/var/tmp}/seedimport-$$; rm -rf $S; git clone -q /repo $S
-for pd in "$SRC"/C*/; do
+for pd in "$SRC"/${3:-C*}/; do
   p=$(basename "$pd")
   for k in "$pd"out/*/; do
     [ -f "$k/patch.diff" ] && [ -f "$k/demo.py" ] && [ -f "$k/meta.json" ] || continue
